@@ -120,7 +120,7 @@ func init() {
 			"query returned >= 2 features and at least one returned none",
 		Assumptions: []string{"points whose only tag is their geometry tag are optional in results (never indexed statically, possibly still indexed after edits)",
 			"Tagged is generated for #keys in the main list; Tagged on an @key is a labelled sub-case"},
-		Quick: 320, Thorough: 24000,
+		Quick: 320, Thorough: 6000,
 		Required: []string{"kind_basic", "kind_basic-mutable", "kind_mutable-overlay", "kind_overlay", "kind_compact", "kind_compact-merged",
 			"results_nonempty", "typed_queries", "keyed_at", "history_ops"},
 		Run: func(c *core.Ctx) {
